@@ -129,18 +129,20 @@ func (fp *fmtParser) one(format string) (fmtParseOutcome, bool) {
 }
 
 type fmtParseFacts struct {
-	ok         bool     // the evaluation produced one concrete outcome for every format asked
-	undecided  []string // formats without a single concrete outcome
-	accepted   map[string]fmtParseOutcome
-	rejected   []string
-	tags       map[string]bool
-	goUnknown  []string // accepted C letters left in the Go format although Go's fmt does not know them
-	gBare      bool     // %g, %G, %5g translate to the same with .6
-	gPrecKept  bool     // %.3g is left alone
-	gAfterPrec bool     // %.2f %g: the bare %g still gets .6
-	star       bool     // %*d -> two tags, %*.*f -> three, the first ones integer tags
-	earlyEnd   bool     // "%", "%5", "%-" are errors
-	percent    bool     // %% takes no argument
+	ok            bool     // the evaluation produced one concrete outcome for every format asked
+	undecided     []string // formats without a single concrete outcome
+	accepted      map[string]fmtParseOutcome
+	rejected      []string
+	tags          map[string]bool
+	goUnknown     []string // accepted C letters left in the Go format although Go's fmt does not know them
+	gBare         bool     // %g, %G, %5g translate to the same with .6
+	gPrecKept     bool     // %.3g is left alone
+	gAfterPrec    bool     // %.2f %g: the bare %g still gets .6
+	star          bool     // %*d -> two tags, %*.*f -> three, the first ones integer tags
+	earlyEnd      bool     // "%", "%5", "%-" are errors
+	percent       bool     // %% takes no argument
+	compositional bool     // the translation of two/three conversions is the translations of each, in place
+	nonComp       []string
 }
 
 func fmtParseFactsOf(c *Ctx) *fmtParseFacts {
@@ -215,6 +217,33 @@ func fmtParseFactsOf(c *Ctx) *fmtParseFacts {
 		return ok && o.isErr
 	}
 	f.earlyEnd = isErr("%") && isErr("%5") && isErr("abc%-") && isErr("%.")
+	// the translation is compositional: a format of two (three) conversions translates to the translations of its
+	// conversions, in place - whatever one conversion inserts or rewrites does not disturb the next
+	f.compositional = true
+	var letters []string
+	for l := range f.accepted {
+		letters = append(letters, l)
+	}
+	sort.Strings(letters)
+	for _, x := range letters {
+		for _, y := range letters {
+			ox, oy := f.accepted[x], f.accepted[y]
+			if !eq("%"+x+"|%"+y, ox.format+"|"+oy.format, ox.tags+oy.tags) {
+				f.compositional = false
+				f.nonComp = append(f.nonComp, "%"+x+"|%"+y)
+			}
+		}
+	}
+	for _, tr := range [][3]string{{"g", "G", "c"}, {"G", "i", "g"}, {"g", "u", "A"}, {"c", "g", "a"}} {
+		a, b, cc := f.accepted[tr[0]], f.accepted[tr[1]], f.accepted[tr[2]]
+		if _, ok := f.accepted[tr[0]]; !ok {
+			continue
+		}
+		if !eq("%"+tr[0]+" %"+tr[1]+" %"+tr[2], a.format+" "+b.format+" "+cc.format, a.tags+b.tags+cc.tags) {
+			f.compositional = false
+			f.nonComp = append(f.nonComp, "%"+tr[0]+" %"+tr[1]+" %"+tr[2])
+		}
+	}
 	f.percent = eq("%%", "%%", "") && eq("100%% %d", "100%% %d", "d")
 	f.undecided = append(f.undecided, fp.problems...)
 	if len(fp.problems) > 0 {
